@@ -60,6 +60,11 @@ CLAIMS = {
         note="Trusted: Lean kernel; axioms propext, Classical.choice, Quot.sound; the mock clock hook (cfg bp7_verif) returns the supplied time; Duration::as_millis floors.",
         technique="Lean 4 proof (case analysis on the three steps; search-invariance lemma for updates of other block types) + differential correspondence check",
         design="§6 C08"),
+    "C10": dict(
+        text="Lean 4 theorems: for every endpoint ID in the range of the parser/constructors (EidRange; parse_in_range / withDtn_range show the parser and with_dtn/with_ipn only return such values) printing then parsing returns the same value (parse_print) and CBOR encode/decode returns the same value (cbor_eid_roundtrip); dtn:none, dtn://node/service for every '/'-free node and every service, and ipn:n.s for all 1<=n<2^64, s<2^64 are accepted with node and service reported unchanged (accept_none/accept_dtn/accept_ipn); the seven rejection classes of the property are rejected for every string of the class (reject_no_colon, reject_unknown_scheme, reject_dtn_without_slashes, reject_dtn_none_host, reject_ipn_node0, reject_ipn_one_field / field count, reject_ipn_nonnumeric); node_id_parses and new_endpoint_dtn give the node-ID and sibling-endpoint clauses. Strings are byte lists; decimal printing/parsing of u64 proved inverse (parseU64_decStr). Tie to the code: try_from/Display/accessors/CBOR of the real crate vs the model on grammar-generated valid EIDs (UTF-8 names, ':' '/' '-' '%' '~', full-range u64), near-miss invalid strings and mutations; the parser body, format strings and the dtn validity rule are re-extracted and re-proved equal to what the model assumes on every run.",
+        note="Trusted: Lean kernel; axioms propext, Classical.choice, Quot.sound; str::splitn/split/parse::<u64>/starts_with/contains of the Rust standard library are modelled (their model is what the correspondence check exercises); new_endpoint for ipn (trim + parse) is covered by correspondence only.",
+        technique="Lean 4 proof (list-splitting lemmas, decimal print/parse inverse, case analysis of the parser) + differential correspondence check",
+        design="§6 C10"),
     "C13": dict(
         text="Lean 4 theorems: the ID is a function of (printed source, time, sequence number, fragment flag, offset-if-fragment) (id_depends_only); the converse is stated in full (IdInjective), refuted by the concrete K1 witness (id_not_injective, by decide) and proved for bundles with equal source EIDs (id_injective_same_source_partial) using that decimal printing is injective and dash-free; the status-report reference equals the ID (refbundle_eq_id). Tie to the code: id()/Display of the real crate vs model on adversarial pairs; the harness oracle flags every ID collision / split: collisions between different source strings are reported as KNOWN-FINDING id-separator-ambiguity, any other as VIOLATION.",
         note="Known finding K1 (not repaired): IDs are not injective across different source strings. Trusted: Lean kernel; axioms propext, Quot.sound; model of Display/to_string for u64 and EndpointID.",
